@@ -271,7 +271,7 @@ def run_chain(cuqi, impl, spec, eps, md, x0, scripts, warm=0, warm_seed=1, delta
                             acc=bool(s._acc[-1]), nrand=sum(1 for o_ in (sc.orders[-1] if sc.orders else []) if o_ == "rand"),
                             nlast=len(tr["leaves"]) - tr["top"][-1] if tr["top"] else 0, alpha=float(s._current_alpha_ratio),
                             order=sc.orders[-1] if sc.orders else [], ntree=int(s.num_tree_node_list[-1]),
-                            md=int(s.max_depth)))
+                            md=(opts["md_next"] if (j_ >= 1 and "md_next" in opts) else (15 if opts.get("md_default") else md))))   # what the harness asked for, never read back
         # keep-alive: the samples handed out earlier still are what they were when the transition ended
         stored = [np.array(v, dtype=float) for v in s._samples[-len(scripts):]]
         obs[0]["samples_stable"] = all(np.array_equal(a_, o_["point"]) for a_, o_ in zip(stored, obs))
@@ -462,13 +462,24 @@ class SymU:
         return self.ctl.decide(float(p))
 
 
+class RunawayDepth(Exception):
+    pass
+
+
+class RunawayReport(Exception):
+    pass
+
+
 class Enumerator:
     """depth-first enumeration of every outcome of a randomised run with exact weights"""
-    def __init__(self):
+    def __init__(self, limit=None):
         self.prefix, self.pos, self.weight, self.pending = [], 0, Fraction(1), []
         self.runs = 0
+        self.limit = limit            # more random decisions than this in one run: the depth bound is not respected
 
     def decide(self, p):
+        if self.limit is not None and self.pos >= self.limit:
+            raise RunawayDepth()
         p = min(1.0, max(0.0, p))
         pf = Fraction(p).limit_denominator(10**6)
         if self.pos < len(self.prefix):
@@ -497,7 +508,7 @@ class Enumerator:
 
 def kernel_from(cuqi, impl, spec, eps, max_depth, x, r, e):
     """exact law of the next point of the real sampler started at (x, momentum r, slice draw e)"""
-    en = Enumerator()
+    en = Enumerator(limit=2 ** (max_depth + 1) + 2 * (max_depth + 1) + 2)
 
     def script(kind, a, k, idx):
         if kind == "standard_normal":
@@ -572,19 +583,31 @@ def orbit_stationary(cuqi, impl, spec, eps, max_depth, x, r, e, all_targets=Fals
 
     def law_of(i):
         if i not in laws:
-            law = kernel_from(cuqi, impl, spec, eps, max_depth, st[i][0], st[i][1], H[i] - logu)
+            try:
+                law = kernel_from(cuqi, impl, spec, eps, max_depth, st[i][0], st[i][1], H[i] - logu)
+            except RunawayDepth:
+                raise RunawayReport("started at orbit position %d the sampler takes more random decisions than a transition of max_depth %d can take "
+                                    "(%d): the depth bound is not respected" % (i, max_depth, 2 ** (max_depth + 1) + 2 * (max_depth + 1)))
             idx = {}
             for pt, w in law.items():
                 ks = [k for k in range(i - span, i + span + 1) if np.allclose(st[k][0], pt, rtol=1e-9, atol=1e-12)]
                 idx[ks[0] if ks else ("off-orbit", pt)] = idx.get(ks[0] if ks else ("off-orbit", pt), 0) + w
             laws[i] = idx
         return laws[i]
+    try:
+        for i in ([0] if 0 in targets else []):
+            law_of(i)
+    except RunawayReport as ex:
+        return str(ex)
     for k in targets:
         total, parts = Fraction(0), {}
         for i in range(k - span, k + span + 1):
             if not inslice(i):
                 continue
-            law = law_of(i)
+            try:
+                law = law_of(i)
+            except RunawayReport as ex:
+                return str(ex)
             if abs(float(sum(law.values())) - 1) > 1e-9:
                 return "enumerated weights from orbit position %d sum to %s" % (i, float(sum(law.values())))
             for kk, w in law.items():
